@@ -363,7 +363,12 @@ class SchemaValidator:
                 )
             )
 
-        for param in remaining[3:]:
+        # Keyword only parameters can never be one of the 3 positional ones.
+        unmatched = remaining_positional[3:] + [
+            p for p in remaining if p.kind is Parameter.KEYWORD_ONLY
+        ]
+
+        for param in unmatched:
             if param.default is Parameter.empty:
                 self.add_error(
                     'Required resolver parameter "%s" on "%s" does not match '
